@@ -97,6 +97,8 @@ pub open spec fn cond_is_bool(args: &[XExpr]) -> bool {
     ev(args[0]) matches Ok(v) ==> v.value is Bool
 }
 
+// @@INCLUDE stdx@@
+
 // @@EXTRACTED@@
 
 } // verus!
